@@ -15,6 +15,7 @@ import Nq.Lemmas.UsersGetpw
 import Nq.Lemmas.UsersNewu
 import Nq.Lemmas.UsersCdbBytes
 import Nq.Lemmas.UsersCdbRobust
+import Nq.Lemmas.UsersCdbDump
 
 namespace Nq.Props.C11
 open Nq Nq.Users Nq.Spec.Users Nq.Gen.Lspawn Nq.Lemmas.Users
@@ -170,13 +171,48 @@ theorem C11_lookup_error_defers (env : Env) (flt : Fault) (loc : Bytes) (evs : L
   have hall : ∀ c ∈ [QLX_CDB, QLX_SYS, QLX_USAGE, QLX_EXECPW, QLX_NFS, QLX_NOALIAS], reportByte c = 90 := by decide
   exact hall c key
 
+/-- report() beyond its first byte: for every lookup/identity error code the WHOLE report is a fixed single line
+    `Z…\n` — it does not depend on what the child wrote, contains no NUL and no inner LF (so qmail-send reads exactly one
+    deferral line); for every other code the report is the class byte followed by the child's output up to its first
+    NUL.  (Texts regenerated from qmail-lspawn.c on every run.) -/
+theorem C11_report_text :
+    ∀ c ∈ [QLX_CDB, QLX_NOMEM, QLX_SYS, QLX_NFS, QLX_EXECPW, QLX_USAGE, QLX_NOALIAS, QLX_ROOT, QLX_EXECSOFT], ∀ s : Bytes,
+      reportFull c s = reportFull c [] ∧ (reportFull c []).head? = some 90 ∧ (reportFull c []).getLast? = some LF ∧
+      NUL ∉ reportFull c [] ∧ LF ∉ (reportFull c []).dropLast := by
+  have key : ∀ c ∈ [QLX_CDB, QLX_NOMEM, QLX_SYS, QLX_NFS, QLX_EXECPW, QLX_USAGE, QLX_NOALIAS, QLX_ROOT, QLX_EXECSOFT],
+      (reportTexts.find? (fun p => p.1 == c)).isSome = true ∧ (reportFull c []).head? = some 90 ∧
+      (reportFull c []).getLast? = some LF ∧ NUL ∉ reportFull c [] ∧ LF ∉ (reportFull c []).dropLast := by decide
+  intro c hc s
+  obtain ⟨h1, h2⟩ := key c hc
+  refine ⟨?_, h2⟩
+  unfold reportFull
+  cases hf : reportTexts.find? (fun p => p.1 == c) with
+  | none => rw [hf] at h1; cases h1
+  | some p => rfl
+
+/-- the first byte of the whole report is `reportByte`, for every exit code and output -/
+theorem C11_report_head (c : Nat) (s : Bytes) : (reportFull c s).head? = some (reportByte c) := by
+  have key : ∀ p ∈ reportTexts, p.2.head? = some (reportByte p.1) := by decide
+  unfold reportFull
+  cases hf : reportTexts.find? (fun p => p.1 == c) with
+  | none => rfl
+  | some p =>
+    have hm := List.mem_of_find?_eq_some hf
+    have hc := List.find?_some hf
+    have : p.1 = c := by simpa using hc
+    rw [← this]; exact key p hm
+
+/-- a crashed child: the whole report is the fixed line `Zqmail-local crashed.\n` class `Z` -/
+theorem C11_report_crashed : reportCrashedText.head? = some reportCrashed ∧ reportCrashed = 90 ∧
+    reportCrashedText.getLast? = some LF ∧ NUL ∉ reportCrashedText := by decide
+
 /-! ## which user: the assignment table -/
 
 /-- nughde_get's lookup order (exact key, then shrinking prefixes gated by the recorded break characters, then the
     empty prefix) computes exactly the declarative assignment: the first exact entry for the lower-cased address, else
     the first entry with the LONGEST wildcard prefix of it (its `pre` followed by the rest of the address in original
     case), else "not in the table". `lkTbl tbl` is the lookup function the source table defines
-    (`C11_cdb_roundtrip_partial` shows the compiled tables implement it). Hypotheses: the address is a C string and
+    (`C11_cdb_roundtrip` shows that the bytes of the compiled file implement it). Hypotheses: the address is a C string and
     the table's names are NUL-free — `C11_newu_table_ok` shows qmail-newu only produces such tables. -/
 theorem C11_lookup_spec (tbl : List Asg) (hT : ∀ a ∈ tbl, NUL ∉ a.name) (loc : Bytes) (hl : NUL ∉ loc) :
     nughdeLoop (lkTbl tbl) (wildOf tbl []) loc =
@@ -307,6 +343,25 @@ theorem C11_newu_refuses (assign : Bytes) : newuFile assign = none ↔ specParse
   rw [C11_newu_parse]
   cases specParse assign <;> simp
 
+/-- reading the records of the compiled file back in file order (an independent reading of the format, `cdbDump`)
+    gives exactly the source list: nothing added, dropped, reordered or altered (duplicates kept) -/
+theorem C11_cdb_dump (es : List (Bytes × Bytes)) (hsz : (cdbMake es).length < 4294967296) :
+    cdbDump (cdbMake es) = some es :=
+  cdbDump_cdbMake es hsz
+
+/-- the predicate the driver evaluates on the real qmail-newu's output: the records of the compiled users/cdb are
+    exactly the keys and data of the declaratively parsed users/assign, followed by the wildchars record -/
+theorem C11_newu_dump (assign f : Bytes) (h : newuFile assign = some f) (hsz : f.length < 4294967296) :
+    ∃ tbl, specParse assign = some tbl ∧ cdbDump f = some (pairsOf tbl) := by
+  unfold newuFile at h
+  cases hp : newuParse assign with
+  | none => rw [hp] at h; cases h
+  | some tbl =>
+    rw [hp] at h
+    simp only [Option.map_some, Option.some.injEq] at h
+    subst h
+    exact ⟨tbl, by rw [← C11_newu_parse, hp], C11_cdb_dump _ hsz⟩
+
 /-! ## corrupted and truncated databases
 
   Bounds (cdb_seek reports a record only after reading its header and key from inside the file; the data is a slice of
@@ -417,6 +472,8 @@ example : cdbGet (cdbMake [([33, 97, 0], [1]), ([33, 98, 0], [2]), ([33, 97, 0],
   decide +kernel
 example : cdbGet (cdbMake [([33, 97, 0], [1]), ([33, 98, 0], [2]), ([33, 97, 0], [3])]) [33, 99, 0] = .notFound := by
   decide +kernel
+example : cdbDump (cdbMake [([33, 97, 0], [1]), ([33, 98, 0], [2]), ([33, 97, 0], [3])]) =
+    some [([33, 97, 0], [1]), ([33, 98, 0], [2]), ([33, 97, 0], [3])] := by decide +kernel
 -- truncated after the header: the lookup reports a read error (hypothesis of `C11_cdb_truncated`, first alternative)
 example : cdbGet ((cdbMake [([33, 97, 0], [1]), ([33, 98, 0], [2])]).take 2060) [33, 97, 0] = .err := by decide +kernel
 
